@@ -261,6 +261,63 @@ UNITS["STACK"] = dict(
              "is_blockable": dict(params={"shapes": "list nshape"}, kind="value",
                                   callees={"is_nested": ("is_nested", [])})})
 
+UNITS["SOLVE"] = dict(
+    out="C15_Solve", file=OPT + "_common.py", classes=["Optimizer"], opaque="W",
+    attrs=["itnum", "maxiter", "nanstop"], bool_attrs=["nanstop"], lits={0: "0%Z", 1: "1%Z"},
+    imports=["From SV Require Import Opt.GenSig."],
+    context="{W CB V : Type} {OS : OptSig W CB V}",
+    methods={"solve": dict(
+        params={"callback": "CB"}, kind="effect", truthy_params=["callback"],
+        effects={"self.timer.start()": "do_timer_start", "self.timer.stop()": "do_timer_stop",
+                 "self.step()": "do_step", "self.itstat_object.insert(self.itstat_insert_func(self))": "do_stats",
+                 "callback(self)": "do_callback v_callback", "self.itstat_object.end()": "do_itstat_end"},
+        attr_map={"self._working_vars_finite()": "(is_finite s)", "self.minimizer()": "(get_minimizer s)"})})
+
+FINCTX = "{Var BV : Type} {FS : FinSig Var BV}"
+FINPRIMS = {"snp.isfinite": "f_isfinite", "snp.logical_not": "f_not", "snp.any": "f_any"}
+
+
+def _fin(out, file, classes, fields, prefix):
+    """_working_vars_finite of one optimiser class: a boolean over its working variables"""
+    return dict(out=out, file=file, classes=classes, fields=fields, prefix=prefix, context=FINCTX, prims=FINPRIMS,
+                list_literals=True, imports=["From SV Require Import Opt.GenSig."],
+                methods={"_working_vars_finite": dict(kind="value", emit_reads=True, coqname="finite")})
+
+
+UNITS.update({
+    "FIN_ADMM": _fin("C15_FinAdmm", OPT + "_admm.py", ["ADMM"],
+                     [("x", "Var"), ("z_list", "list Var"), ("u_list", "list Var")], "fa"),
+    "FIN_LADMM": _fin("C15_FinLadmm", OPT + "_ladmm.py", ["LinearizedADMM"], [("x", "Var"), ("z", "Var"), ("u", "Var")], "fl"),
+    "FIN_PADMM": _fin("C15_FinPadmm", OPT + "_padmm.py", ["ProximalADMM", "ProximalADMMBase"],
+                      [("x", "Var"), ("z", "Var"), ("u", "Var")], "fp"),
+    "FIN_NLPADMM": _fin("C15_FinNlpadmm", OPT + "_padmm.py", ["NonLinearPADMM", "ProximalADMMBase"],
+                        [("x", "Var"), ("z", "Var"), ("u", "Var")], "fn"),
+    "FIN_PDHG": _fin("C15_FinPdhg", OPT + "_primaldual.py", ["PDHG"], [("x", "Var"), ("z", "Var")], "fd"),
+    "FIN_PGM": _fin("C15_FinPgm", OPT + "_pgm.py", ["PGM"], [("x", "Var")], "fg"),
+    "FIN_APGM": _fin("C15_FinApgm", OPT + "_pgm.py", ["AcceleratedPGM", "PGM"], [("x", "Var"), ("v", "Var")], "fq"),
+})
+
+UNITS["ITSTAT"] = dict(
+    out="C15_Itstat", file=OPT + "_common.py", classes=[], dicts=True,
+    imports=["From Coq Require Import String.", "From SV Require Import Opt.GenSig."],
+    context="{D Val Obj : Type} {DS : DictSig D Val Obj}",
+    methods={"itstat_func_and_object": dict(
+        params={"itstat_fields": "Val", "itstat_attrib": "unit", "itstat_options": "option D"},
+        kind="value", slice=("default_itstat_options", None), pre_params=[("default_func", "Val")],
+        attr_map={"scope['itstat_func']": "default_func"}, truthy_dicts=["itstat_options"],
+        kwcallees={"IterationStats": "mk_stats"}, return_params=["itstat_options"])})
+
+TSIG = "{L T D0 D1 : Type} {TS : TimerSig L T D0 D1}"
+UNITS["TIMER"] = dict(
+    out="C15_Timer", file="scico/util.py", classes=["Timer"], prefix="tm", context=TSIG, eqb="l_eqb",
+    dict_attrs=["t0", "td"], opt_dict_attrs=["t0"], list_literals=True, lits={0: "t_zero"},
+    imports=["From SV Require Import Opt.GenSig."],
+    fields=[("t0", "D0"), ("td", "D1"), ("default_label", "L"), ("all_label", "L")],
+    methods={m: dict(params={"labels": "L"}, shapes={"labels": {"one": "L", "list": "list L"}}, kind="outcome", outcome_type="T",
+                     pre_params=[("now", "T")], attr_map={"timer()": "now"}) for m in ("start", "stop", "reset")}
+    | {"elapsed": dict(params={"label": "L", "total": "bool"}, kind="outcome", outcome_type="T", pre_params=[("now", "T")],
+                       attr_map={"timer()": "now"})})
+
 
 class Env:
     def __init__(self):
@@ -275,6 +332,9 @@ class Env:
         self.brk = None      # continuation of `break` inside a while loop
         self.counters = {}   # python local -> 0, while it is a loop counter initialised to the literal 0
         self.tuple1 = set()  # python locals bound to a cvjp closure: calling them yields a 1-tuple
+        self.rs = None       # continuation of `raise` inside a loop of an effect-mode method
+        self.shape = {}      # python local -> "none" | "one" | "list" (argument given as None / one item / a list)
+        self.sub_plain = {}  # unparse(self.d[k]) -> Coq variable, where that entry is known not to be None
 
     def copy(self):
         e = Env()
@@ -283,6 +343,8 @@ class Env:
         e.optnames, e.attr_plain, e.brk = set(self.optnames), dict(self.attr_plain), self.brk
         e.counters = dict(self.counters)
         e.tuple1 = set(self.tuple1)
+        e.rs = self.rs
+        e.shape, e.sub_plain = dict(self.shape), dict(self.sub_plain)
         return e
 
 
@@ -311,12 +373,19 @@ class Tr:
         self.helpers = helpers   # python method name -> coq name of already translated helpers
         self.attr_map = spec.get("attr_map", {})
         self.mutates = True   # set by translate_method: does the body store into list items?
+        self.reads = []       # attributes read, in order of first read
 
     def bad(self, node, msg):
         raise Unsupported(self.fn, node, msg + ": " + ast.unparse(node)[:80])
 
     # -- state
     def rd(self, a, env, node=None):
+        if a not in self.reads:
+            self.reads.append(a)
+        if self.u.get("opaque"):            # the object is one abstract value `s`
+            if a not in self.u.get("attrs", []):
+                self.bad(node, f"attribute self.{a} is not in the unit's signature")
+            return f"(get_{a} s)"
         if a in env.attrs:
             return env.attrs[a]
         if a not in self.fields:
@@ -324,6 +393,8 @@ class Tr:
         return f"s.({self.prefix}_{a})"
 
     def cur_state(self, env):
+        if self.u.get("opaque"):
+            return "s"
         return "(mk_st " + " ".join(self.rd(a, env) for a in self.fields) + ")"
 
     @staticmethod
@@ -347,10 +418,25 @@ class Tr:
             raw = self.opt_atom(e.left, env)
             if raw is not None:
                 return raw, e.left, isinstance(e.ops[0], ast.Is)
+            l_ = e.left
+            if isinstance(l_, ast.Subscript) and self.is_self(l_.value) and l_.value.attr in self.u.get("opt_dict_attrs", []) \
+                    and isinstance(l_.slice, ast.Name) and ast.unparse(l_) not in env.sub_plain:
+                return self.expr(l_, env), l_, isinstance(e.ops[0], ast.Is)
         return None
 
     # -- static None-ness of optional parameters
     def static(self, e, env):
+        if isinstance(e, ast.Call) and ast.unparse(e.func) == "isinstance" and len(e.args) == 2 \
+                and isinstance(e.args[0], ast.Name) and e.args[0].id in env.shape \
+                and ast.unparse(e.args[1]) in ("(list, tuple)", "list", "(tuple, list)"):
+            return env.shape[e.args[0].id] == "list"
+        if isinstance(e, ast.UnaryOp) and isinstance(e.op, ast.Not):
+            v_ = self.static(e.operand, env)
+            return None if v_ is None else (not v_)
+        if isinstance(e, ast.Compare) and len(e.ops) == 1 and isinstance(e.ops[0], ast.Eq) \
+                and isinstance(e.left, ast.Name) and env.shape.get(e.left.id) == "list" and self.is_self(e.comparators[0]) \
+                and not self.fields.get(e.comparators[0].attr, "").startswith("list"):
+            return False        # a list never equals a single label
         if isinstance(e, ast.Compare) and len(e.ops) == 1 and isinstance(e.ops[0], (ast.Is, ast.IsNot)) \
                 and isinstance(e.comparators[0], ast.Constant) and e.comparators[0].value is None \
                 and ((isinstance(e.left, ast.Name) and e.left.id in env.names and e.left.id not in env.none
@@ -380,6 +466,8 @@ class Tr:
                 return "true" if e.value else "false"
             if isinstance(e.value, (int, float)):
                 return lit(e.value)
+            if e.value is None and self.u.get("dict_attrs"):
+                return "None"
             self.bad(e, "constant")
         if isinstance(e, ast.Name):
             if e.id in env.none and env.none[e.id]:
@@ -425,6 +513,16 @@ class Tr:
             return f"(if {self.test(e.test, env)} then {X(e.body)} else {X(e.orelse)})"
         if isinstance(e, ast.Tuple):
             return "(" + ", ".join(X(t) for t in e.elts) + ")"
+        if isinstance(e, ast.Dict) and self.u.get("dicts"):
+            items = []
+            for k_, v_ in zip(e.keys, e.values):
+                if not (isinstance(k_, ast.Constant) and isinstance(k_.value, str)):
+                    self.bad(e, "dict key that is not a string literal")
+                val = f"(v_bool {'true' if v_.value else 'false'})" if isinstance(v_, ast.Constant) and isinstance(v_.value, bool) else X(v_)
+                items.append(f'("{k_.value}"%string, {val})')
+            return "(d_of [" + "; ".join(items) + "])"
+        if isinstance(e, ast.List) and self.u.get("list_literals"):
+            return "[" + "; ".join(X(t) for t in e.elts) + "]"
         if isinstance(e, ast.Lambda):
             a = e.args
             if a.vararg or a.kwarg or a.kwonlyargs or a.defaults or a.posonlyargs:
@@ -445,6 +543,10 @@ class Tr:
                 env2.types[g.target.id] = lt[5:].strip("()")
             return f"(map (fun v_{g.target.id} => {self.expr(e.elt, env2)}) {X(g.iter)})"
         if isinstance(e, ast.Compare):
+            if len(e.ops) == 1 and isinstance(e.ops[0], (ast.In, ast.NotIn)) and self.is_self(e.comparators[0]) \
+                    and e.comparators[0].attr in self.u.get("dict_attrs", []):
+                m_ = f"(dmem_ {self.rd(e.comparators[0].attr, env)} {X(e.left)})"
+                return m_ if isinstance(e.ops[0], ast.In) else f"(negb {m_})"
             if len(e.ops) == 1:
                 op, l, r = e.ops[0], e.left, e.comparators[0]
                 if isinstance(op, ast.Eq) and self.u.get("eqb"):
@@ -473,6 +575,11 @@ class Tr:
             for q in reversed(parts[:-1]):
                 out = f"({f} {q} {out})"       # Python evaluates left to right; both are total here
             return out
+        if isinstance(e, ast.Subscript) and self.is_self(e.value) and e.value.attr in self.u.get("dict_attrs", []) \
+                and isinstance(e.slice, ast.Name):
+            if ast.unparse(e) in env.sub_plain:
+                return env.sub_plain[ast.unparse(e)]
+            return f"(dget_ {self.rd(e.value.attr, env)} {X(e.slice)})"
         if isinstance(e, ast.Subscript):
             v = e.value
             if isinstance(v, ast.Call) and isinstance(v.func, ast.Name) and v.func.id in env.tuple1 \
@@ -546,6 +653,15 @@ class Tr:
         f, fs, n = e.func, ast.unparse(e.func), len(e.args)
         if any(isinstance(a, ast.Starred) for a in e.args):
             self.bad(e, "star argument")
+        if fs == "list" and n == 1 and not e.keywords and isinstance(e.args[0], ast.Call) \
+                and isinstance(e.args[0].func, ast.Attribute) and e.args[0].func.attr == "keys" and not e.args[0].args \
+                and self.is_self(e.args[0].func.value) and e.args[0].func.value.attr in self.u.get("dict_attrs", []):
+            return f"(dkeys_ {self.rd(e.args[0].func.value.attr, env)})"
+        if fs in self.u.get("prims", {}) and n == 1 and not e.keywords:
+            return f"({self.u['prims'][fs]} {X(e.args[0])})"
+        if fs in self.m.get("kwcallees", {}) and n == 0 and len(e.keywords) == 1 and e.keywords[0].arg is None \
+                and isinstance(e.keywords[0].value, ast.Name):
+            return f"({self.m['kwcallees'][fs]} {X(e.keywords[0].value)})"      # F(**d)
         if fs in self.m.get("callees", {}):            # library routine modelled as an oracle
             oname, kws = self.m["callees"][fs]
             got = {k.arg: k.value for k in e.keywords}
@@ -691,7 +807,7 @@ class Tr:
         """Expression in boolean position."""
         if self.is_self(e) and e.attr in self.u.get("truthy", {}):
             return self.rd(self.u["truthy"][e.attr], env)
-        if self.is_self(e) and self.fields.get(e.attr) == "bool":
+        if self.is_self(e) and (self.fields.get(e.attr) == "bool" or e.attr in self.u.get("bool_attrs", [])):
             return self.rd(e.attr, env)
         if isinstance(e, ast.Name) and self.m.get("params", {}).get(e.id) == "bool":
             return self.expr(e, env)
@@ -736,6 +852,9 @@ class Tr:
             env.names[t.id] = "v_" + t.id
             if t.id in env.none:
                 env.none[t.id] = False
+            if t.id in env.shape and val_node is not None:
+                env.shape[t.id] = "list" if isinstance(val_node, ast.List) or (
+                    isinstance(val_node, ast.Call) and ast.unparse(val_node.func) == "list") else "one"
             env.counters.pop(t.id, None)
             env.tuple1.discard(t.id)
             if isinstance(val_node, ast.Subscript) and isinstance(val_node.value, ast.Call) \
@@ -754,6 +873,10 @@ class Tr:
                 return f"let v_{t.id} := {raw} in\n"
             env.optnames.discard(t.id)
             return f"let v_{t.id} := {val} in\n"
+        if self.is_self(t) and self.u.get("opaque"):
+            if t.attr not in self.u.get("attrs", []):
+                self.bad(t, "assignment to an attribute outside the unit's signature")
+            return f"let s := (set_{t.attr} {val} s) in\n"
         if self.is_self(t):
             if t.attr not in self.fields:
                 self.bad(t, "assignment to an attribute outside the state record")
@@ -770,12 +893,37 @@ class Tr:
                 return f"let self_{t.attr}_v := {val} in\nlet self_{t.attr} : {fty} := Some self_{t.attr}_v in\n"
             return f"let self_{t.attr} : {fty} := {val} in\n"
         if isinstance(t, ast.Subscript) and self.is_self(t.value) and isinstance(t.slice, ast.Name) \
+                and t.value.attr in self.u.get("dict_attrs", []) and t.slice.id in env.names:
+            a = t.value.attr
+            cur = self.rd(a, env)
+            env.attrs[a] = "self_" + a
+            for k_ in [k_ for k_ in env.sub_plain if k_.startswith(f"self.{a}[")]:
+                del env.sub_plain[k_]
+            if a in self.u.get("opt_dict_attrs", []) and val != "None":
+                val = f"(Some {val})"        # a None-able entry
+            return f"let self_{a} := (dput_ {cur} {env.names[t.slice.id]} {val}) in\n"
+        if isinstance(t, ast.Subscript) and self.is_self(t.value) and isinstance(t.slice, ast.Name) \
                 and env.idx == t.slice.id and self.fields.get(t.value.attr, "").startswith("list"):
             a = t.value.attr
             cur = self.rd(a, env)
             env.attrs[a] = "self_" + a
             return f"let self_{a} := upd_nth {env.names[t.slice.id]} {val} {cur} in\n"
         self.bad(t, "assignment target")
+
+    def dict_pop(self, t, v_, env):
+        """x = d.pop("k", None): the value (or None), then the removal in place (d is rebound)"""
+        if self.u.get("dicts") and isinstance(v_, ast.Call) and isinstance(v_.func, ast.Attribute) and v_.func.attr == "pop" \
+                and isinstance(v_.func.value, ast.Name) and v_.func.value.id in env.names \
+                and v_.func.value.id not in env.optnames and len(v_.args) == 2 and not v_.keywords \
+                and isinstance(v_.args[0], ast.Constant) and isinstance(v_.args[0].value, str) \
+                and isinstance(v_.args[1], ast.Constant) and v_.args[1].value is None and isinstance(t, ast.Name):
+            nm, key = v_.func.value.id, v_.args[0].value
+            cur = env.names[nm]
+            env.names[t.id] = "v_" + t.id
+            env.names[nm] = "v_" + nm
+            return (f'let v_{t.id} := (d_get {cur} "{key}"%string) in\n'
+                    f'let v_{nm} := (d_remove {cur} "{key}"%string) in\n')
+        return None
 
     def block(self, stmts, env, k):
         if not stmts:
@@ -787,6 +935,15 @@ class Tr:
                 return cont(env)
             if ast.unparse(st.value) == "super().__init__(**kwargs)":
                 return cont(env)   # base Optimizer bookkeeping (C15), no solver state
+            c_ = st.value
+            if self.u.get("dicts") and isinstance(c_, ast.Call) and isinstance(c_.func, ast.Attribute) \
+                    and c_.func.attr == "update" and isinstance(c_.func.value, ast.Name) and c_.func.value.id in env.names \
+                    and c_.func.value.id not in env.optnames and len(c_.args) == 1 and not c_.keywords:
+                nm = c_.func.value.id        # in-place update of a dict: rebind the name
+                return f"let v_{nm} := (d_update {env.names[nm]} {self.expr(c_.args[0], env)}) in\n" + \
+                    (env.names.__setitem__(nm, "v_" + nm) or cont(env))
+            if ast.unparse(st.value) in self.m.get("effects", {}):
+                return f"let s := ({self.m['effects'][ast.unparse(st.value)]} s) in\n" + cont(env)
             self.bad(st, "expression statement")
         if isinstance(st, ast.Pass):
             return cont(env)
@@ -799,14 +956,36 @@ class Tr:
                 return cont(env)     # type narrowing for mypy; the Coq type already says so
             self.bad(st, "assert")
         if isinstance(st, ast.Raise):
+            if self.m["kind"] == "outcome":     # exception = (state at the raise, PyRaise)
+                return env.rs(env) if env.rs else f"({self.cur_state(env)}, @PyRaise {self.m['outcome_type']})"
+            if self.m["kind"] == "effect":      # exception = (state at the raise, raised flag, no value)
+                return env.rs(env) if env.rs else "(s, true, None)"
             raise Raises()
         if isinstance(st, ast.Return):
             if st.value is None:
                 self.bad(st, "bare return")
+            if self.m["kind"] == "outcome":
+                if env.rs is not None:
+                    self.bad(st, "return inside a loop")
+                return f"({self.cur_state(env)}, PyVal {self.expr(st.value, env)})"
+            if self.m["kind"] == "effect":
+                if env.rs is not None:
+                    self.bad(st, "return inside a loop")
+                return f"(s, false, Some {self.expr(st.value, env)})"
             if self.m["kind"] == "both":
                 return f"({self.expr(st.value, env)}, {self.cur_state(env)})"
             if self.m["kind"] != "value":
                 self.bad(st, "return in a state method")
+            if self.m.get("return_params"):      # expose in-place changes of the caller's (mutable) arguments
+                fin = []
+                for pn in self.m["return_params"]:
+                    if env.none.get(pn):
+                        fin.append("None")
+                    elif pn in env.optnames:
+                        fin.append(env.names[pn])
+                    else:
+                        fin.append(f"(Some {env.names[pn]})")
+                return f"({self.expr(st.value, env)}, {', '.join(fin)})"
             return self.expr(st.value, env)
         if isinstance(st, ast.Break):
             if env.brk is None:
@@ -817,6 +996,9 @@ class Tr:
         if isinstance(st, ast.AnnAssign):
             if st.value is None or not st.simple and not self.is_self(st.target):
                 self.bad(st, "annotated assignment")
+            pp = self.dict_pop(st.target, st.value, env)
+            if pp is not None:
+                return pp + cont(env)
             return self.bind(st.target, st.value, self.value(st.value, st.target, env), env) + cont(env)
         if isinstance(st, ast.Assign):
             if len(st.targets) != 1:
@@ -833,17 +1015,24 @@ class Tr:
                 tmp = [f"tmp_{i}" for i in range(len(t.elts))]
                 s = f"let '({', '.join(tmp)}) := {self.expr(st.value, env)} in\n"
                 return s + "".join(self.bind(tt, None, a, env) for tt, a in zip(t.elts, tmp)) + cont(env)
+            pp = self.dict_pop(t, st.value, env)
+            if pp is not None:
+                return pp + cont(env)
             val = self.value(st.value, t, env)
             return self.bind(t, st.value, val, env) + cont(env)
         if isinstance(st, ast.AugAssign):
             ops = {ast.Add: "+", ast.Sub: "-", ast.Mult: "*", ast.Div: "/"}
-            if type(st.op) not in ops or not (isinstance(st.target, ast.Name) or self.is_self(st.target)):
+            is_ent = isinstance(st.target, ast.Subscript) and self.is_self(st.target.value) \
+                and st.target.value.attr in self.u.get("dict_attrs", [])
+            if type(st.op) not in ops or not (isinstance(st.target, ast.Name) or self.is_self(st.target) or is_ent):
                 self.bad(st, "augmented assignment")
             cur = self.expr(st.target, env)
             val = f"({cur} {ops[type(st.op)]} {self.expr(st.value, env)})"
             return self.bind(st.target, None, val, env) + cont(env)
         if isinstance(st, ast.If):
             c = self.static(st.test, env)
+            if isinstance(st.test, ast.Name) and st.test.id in env.none and st.test.id in self.m.get("truthy_params", []):
+                c = not env.none[st.test.id]     # `if callback:` -- a supplied callable is truthy
             if c is True:
                 return self.block(st.body + rest, env, k)
             if c is False:
@@ -856,12 +1045,26 @@ class Tr:
                 inner = ast.If(test=inner_test, body=st.body, orelse=st.orelse)
                 return self.block([ast.If(test=first, body=[inner], orelse=st.orelse)] + rest, env, k)
             nt = self.none_test(st.test, env)
+            if isinstance(st.test, ast.Name) and st.test.id in env.optnames and st.test.id in self.m.get("truthy_dicts", []):
+                # `if d:` for d: Optional[dict] -- false for None and for the empty dict
+                nm = st.test.id
+                e_some = env.copy()
+                e_some.names[nm] = "v_" + nm + "_v"
+                e_some.optnames.discard(nm)
+                a = self.block(st.orelse + rest, env.copy(), k)
+                b1 = self.block(st.body + rest, e_some.copy(), k)
+                b2 = self.block(st.orelse + rest, e_some.copy(), k)
+                return (f"match {env.names[nm]} with\n| None => (\n{a})\n| Some v_{nm}_v => (\n"
+                        f"if (d_nonempty v_{nm}_v) then (\n{b1}) else (\n{b2}))\nend")
             try:
                 if nt:
                     raw, node, is_none = nt
                     e_some = env.copy()
-                    fresh = ("v_" + node.id + "_v") if isinstance(node, ast.Name) else f"self_{node.attr}_v"
-                    if isinstance(node, ast.Name):
+                    fresh = ("v_" + node.id + "_v") if isinstance(node, ast.Name) else (
+                        f"ent_{node.value.attr}_v" if isinstance(node, ast.Subscript) else f"self_{node.attr}_v")
+                    if isinstance(node, ast.Subscript):
+                        e_some.sub_plain[ast.unparse(node)] = fresh
+                    elif isinstance(node, ast.Name):
                         e_some.names[node.id] = fresh
                         e_some.optnames.discard(node.id)
                     else:
@@ -876,6 +1079,21 @@ class Tr:
             except Raises:
                 self.bad(st, "raise under a run-time condition")
             return f"if {ce} then (\n{a}) else (\n{b})"
+        if isinstance(st, ast.For) and len(rest) == 1 and isinstance(rest[0], ast.Return) \
+                and isinstance(rest[0].value, ast.Constant) and rest[0].value.value is True \
+                and len(st.body) == 1 and isinstance(st.body[0], ast.If) and not st.body[0].orelse and not st.orelse \
+                and len(st.body[0].body) == 1 and isinstance(st.body[0].body[0], ast.Return) \
+                and isinstance(st.body[0].body[0].value, ast.Constant) and st.body[0].body[0].value.value is False \
+                and isinstance(st.target, ast.Name) and self.m["kind"] == "value":
+            # for v in L: if C(v): return False;  return True   ==   all(not C(v) for v in L)
+            env2 = env.copy()
+            env2.names[st.target.id] = "v_" + st.target.id
+            return (f"(forallb (fun v_{st.target.id} => negb {self.test(st.body[0].test, env2)}) "
+                    f"{self.expr(st.iter, env)})")
+        if isinstance(st, ast.For) and self.m["kind"] == "outcome":
+            return self.list_loop(st, env, cont)
+        if isinstance(st, ast.For) and self.m["kind"] == "effect":
+            return self.range_loop(st, env, cont)
         if isinstance(st, ast.For):
             return self.loop(st, env, cont)
         if isinstance(st, ast.FunctionDef) and self.m.get("skip_defs"):
@@ -901,6 +1119,70 @@ class Tr:
                             and ("name", el.id) not in carried:
                         carried.append(("name", el.id))
         return carried
+
+    def list_loop(self, st, env, cont):
+        """outcome mode: `for x in L: BODY` as recursion on the list, carrying the attributes the body
+        assigns; `raise` in the body leaves the loop and the method with the state reached so far."""
+        if st.orelse or not isinstance(st.target, ast.Name):
+            self.bad(st, "loop header")
+        for n in ast.walk(ast.Module(body=st.body, type_ignores=[])):
+            if isinstance(n, (ast.Break, ast.Continue, ast.Return)):
+                self.bad(n, "break / continue / return in this loop form")
+        carried = self.assigned(st.body, env, exclude=(st.target.id,))
+        if not carried or any(kd != "attr" for kd, _ in carried):
+            self.bad(st, "loop must assign attributes only")
+        coll = self.expr(st.iter, env)
+        cvars = ["self_" + n for _, n in carried]
+        init = [self.rd(n, env) for _, n in carried]
+        tup = lambda xs: xs[0] if len(xs) == 1 else "(" + ", ".join(xs) + ")"
+        benv = env.copy()
+        benv.names[st.target.id] = "v_" + st.target.id
+        for _, n in carried:
+            benv.attrs[n] = "self_" + n
+        cur = lambda ev: tup([ev.attrs[n] for _, n in carried])
+        benv.rs = lambda ev: f"({cur(ev)}, true)"
+        body = self.block(st.body, benv, lambda ev: f"(loop_ rest_ {cur(ev)})")
+        for _, n in carried:
+            env.attrs[n] = "self_" + n
+            for k_ in [k_ for k_ in env.sub_plain if k_.startswith(f"self.{n}[")]:
+                del env.sub_plain[k_]
+        accpat = cvars[0] if len(cvars) == 1 else "'" + tup(cvars)
+        raised = env.rs(env) if env.rs else None
+        s = (f"let '({tup(cvars)}, raised_) := (fix loop_ ls_ acc_ {{struct ls_}} :=\n"
+             f"  match ls_ with\n  | [] => (acc_, false)\n  | v_{st.target.id} :: rest_ => let {accpat} := acc_ in\n{body}\n  end) {coll} {tup(init)} in\n")
+        return s + (f"if raised_ then {raised or '(' + self.cur_state(env) + ', @PyRaise ' + self.m['outcome_type'] + ')'} "
+                    f"else (\n{cont(env)})")
+
+    def range_loop(self, st, env, cont):
+        """effect mode: `for <target> in range(a, a + n): BODY` = recursion on n as fuel, the state
+        `s` threaded through; `raise` in the body leaves the loop AND the method."""
+        it = st.iter
+        if st.orelse or not (isinstance(it, ast.Call) and ast.unparse(it.func) == "range" and len(it.args) == 2
+                             and not it.keywords and isinstance(it.args[1], ast.BinOp) and isinstance(it.args[1].op, ast.Add)
+                             and ast.unparse(it.args[1].left) == ast.unparse(it.args[0])):
+            self.bad(st, "loop header other than range(a, a + n)")
+        if self.assigned(st.body, env):
+            self.bad(st, "loop body assigns local variables of the enclosing scope")
+        for n in ast.walk(ast.Module(body=st.body, type_ignores=[])):
+            if isinstance(n, (ast.Break, ast.Continue)):
+                self.bad(n, "break / continue in this loop form")
+        a, nn = self.expr(it.args[0], env), self.expr(it.args[1].right, env)   # evaluated once, before the loop
+        benv = env.copy()
+        if self.is_self(st.target):
+            if st.target.attr not in self.u.get("attrs", []):
+                self.bad(st.target, "loop target outside the unit's signature")
+            settgt = f"let s := (set_{st.target.attr} k_ s) in\n"
+        elif isinstance(st.target, ast.Name):
+            benv.names[st.target.id] = "v_" + st.target.id
+            settgt = f"let v_{st.target.id} := k_ in\n"
+        else:
+            self.bad(st.target, "loop target")
+        benv.rs = lambda ev: "(s, true)"
+        body = self.block(st.body, benv, lambda ev: "(loop_ fuel_ (k_ + 1)%Z s)")
+        return (f"let a_ := {a} in\nlet n_ := {nn} in\n"
+                f"let '(s, raised_) := (fix loop_ (fuel_ : nat) (k_ : Z) s {{struct fuel_}} :=\n"
+                f"  match fuel_ with\n  | O => (s, false)\n  | S fuel_ =>\n{settgt}{body}\n  end) (Z.to_nat n_) a_ s in\n"
+                f"if raised_ then {env.rs(env) if env.rs else '(s, true, None)'} else (\n{cont(env)})")
 
     def while_loop(self, st, env, cont):
         """`it = 0; while it < bound: BODY; it += 1` with `break`: structural recursion on the
@@ -1111,11 +1393,21 @@ def translate_method(unit, fn, tree, path, spec, helpers):
     out, names = [], []
     subsets = [()] if not optional else list(itertools.chain.from_iterable(
         itertools.combinations(optional, r) for r in range(len(optional) + 1)))
+    shaped = [p for p in used if p in spec.get("shapes", {})]
+    if shaped:          # one variant per way the argument can be given (None / one item / a list)
+        if len(shaped) != 1 or optional != shaped:
+            raise Unsupported(fn, fdef, "shape specialisation supports one optional parameter")
+        subsets = [("none",), ("one",), ("list",)]
     for given in subsets:
         tr = Tr(unit, fn, path, spec, helpers)
         tr.mutates = any(isinstance(n, ast.Subscript) and isinstance(n.ctx, ast.Store)
                          for st_ in body for n in ast.walk(st_))
         env = Env()
+        shape_of = {}
+        if shaped:
+            shape_of[shaped[0]] = given[0]
+            env.shape[shaped[0]] = given[0]
+            given = () if given[0] == "none" else (shaped[0],)
         for p in used:
             if p in optional:
                 env.none[p] = p not in given
@@ -1125,13 +1417,20 @@ def translate_method(unit, fn, tree, path, spec, helpers):
                 env.optnames.add(p)
             env.types[p] = ptypes[p]
         suffix = "" if not optional else ("__" + ("_".join(given) if given else "none"))
+        if shaped:
+            suffix = "__" + shape_of[shaped[0]]
         name = f"{base}_gen{suffix}"
         pre = "".join(f" ({n} : {t})" for n, t in spec.get("pre_params", []))
-        sarg = " (s : st)" if unit.get("fields") else ""
+        sarg = " (s : st)" if unit.get("fields") else (f" (s : {unit['opaque']})" if unit.get("opaque") else "")
         if unit.get("self_is_func"):
             sarg = f" (self_ : {unit['self_is_func']})"
-        args = "".join(f" (v_{p} : {ptypes[p]})" for p in used if p not in optional or p in given)
-        if spec.get("returns"):
+        pty = lambda p: (spec["shapes"][p][shape_of[p]] if p in shape_of else ptypes[p])
+        args = "".join(f" (v_{p} : {pty(p)})" for p in used if p not in optional or p in given)
+        if spec["kind"] == "outcome":
+            k = lambda ev, tr=tr: f"({tr.cur_state(ev)}, @PyNone {spec['outcome_type']})"
+        elif spec["kind"] == "effect":
+            k = lambda ev: "(s, false, None)"
+        elif spec.get("returns"):
             k = lambda ev: "(" + ", ".join(ev.names[n] for n in spec["returns"]) + ")"
         elif spec["kind"] == "state" or (spec["kind"] == "both" and spec.get("implicit_none")):
             k = lambda ev, tr=tr: tr.cur_state(ev)
@@ -1141,6 +1440,8 @@ def translate_method(unit, fn, tree, path, spec, helpers):
         try:
             bodytxt = tr.block(body, env, k)
             out.append(f"Definition {name}{pre}{sarg}{args} :=\n{indent(bodytxt)}.\n")
+            if spec.get("emit_reads"):
+                out.append(f"(* attributes read by {name}: {' '.join(tr.reads)} *)\n")
         except Raises:
             out.append(f"Definition {name}__raises : unit := tt.   (* this call raises *)\n")
         names.append(name)
